@@ -207,6 +207,43 @@ def call_sites(r, n_cases):
     return n
 
 
+def long_lists(r, n_cases):
+    """lists far beyond what the in-Coq evaluation takes (70 000 - 200 000 PEPs; evidence files have millions of rows): monitor only.
+    Values are multiples of 2^-10 and the crossing is placed by construction (a long run of one small value, then larger ones), so the
+    float sums are exact and the statement is evaluated in integer arithmetic."""
+    from picked_group_fdr import fdr
+    n = 0
+    for k in range(n_cases):
+        small = r.rng.choice([0, 1, 2])                       # in units of 2^-10
+        n_small = r.rng.randrange(66000, 140000)
+        big_units = [r.rng.choice([64, 128, 512, 1024]) for _ in range(r.rng.randrange(50, 60000))]
+        level_units = r.rng.choice([4, 16, 64, 256, 1100])     # 1100/1024 > 1: never crossed
+        units = [small] * n_small + big_units
+        peps = [u / 1024.0 for u in units]
+        if k % 2:
+            r.rng.shuffle(peps)
+        if k % 3 == 0:
+            peps[len(peps) // 2:len(peps) // 2] = [float("nan"), float("inf")]
+        tot, want = 0, 1.0
+        for i, u in enumerate(sorted(units), 1):
+            tot += u
+            if tot > level_units * i:
+                want = u / 1024.0
+                break
+        n += 1
+        try:
+            got = float(fdr.calc_post_err_prob_cutoff(peps, level_units / 1024.0))
+        except Exception as e:
+            got = f"raised {type(e).__name__}"
+        if got != want:
+            r.violation("property-failure", {"suite": "long_lists", "n_small": n_small, "small_value": small / 1024.0, "n_larger": len(big_units),
+                                             "level": level_units / 1024.0, "expected": want, "got": got, "shuffled": bool(k % 2),
+                                             "how_to_rebuild": "peps = [small_value] * n_small + larger values (seeded); see harness/props/c17.py long_lists"},
+                        True, f"long_lists: {len(units)} PEPs, level {level_units / 1024.0}: cutoff {got}, the first PEP whose running mean exceeds the level is {want}")
+            return n
+    return n
+
+
 def run(r: core.Runner):
     r.assumptions += [
         "float arithmetic of the running mean is exact on the generated grid (multiples of 2^-20, <= 1024 "
@@ -217,3 +254,4 @@ def run(r: core.Runner):
     for s in SUITES:
         r.run_suite(s)
     r.traces = (r.traces or 0) + call_sites(r, core.tier_n(r.tier, 300, 5000))
+    r.traces += long_lists(r, core.tier_n(r.tier, 6, 40))
